@@ -106,6 +106,7 @@ def main():
         meta = {
             "id": sid,
             "breaks_property": prop,
+            "change_number": int(n),
             "source": "independent sub-agent given only the property text and a scratch worktree",
             "what_it_needs_to_manifest": "see agent_notes.md",
             "confirmed": {
